@@ -1404,6 +1404,27 @@ fn gen_codec(rng: &mut Rng, tier: Tier) -> W2Case {
         return c;
     }
     let codec = rng.pick_str(&["gzip", "gzip", "deflate", "deflate", "br"]);
+    // a large, well-compressing body delivered in large chunks: one chunk inflates to more than the codec's
+    // internal buffers (tens of kilobytes)
+    let large = rng.chance(1, if tier == Tier::Quick { 14 } else { 10 });
+    if large {
+        let unit = String::from_utf8_lossy(&c.body).to_string();
+        let (head, tail) = match unit.rfind("</body>") {
+            Some(p) => (unit[..p].to_string(), unit[p..].to_string()),
+            None => (unit.clone(), String::new()),
+        };
+        let target = if codec == "br" { rng.range(40_000, 120_000) } else { rng.range(40_000, 600_000) };
+        let mut b = String::with_capacity(target + 1024);
+        b.push_str(&head);
+        let mut k = 0;
+        while b.len() < target {
+            b.push_str(&format!("<p class=\"row\">row {} lorem ipsum dolor sit amet</p>\n", k % 97));
+            k += 1;
+        }
+        b.push_str(&tail);
+        c.body = b.into_bytes();
+        c.body_preview = preview(&c.body);
+    }
     let enc = Enc {
         codec: codec.clone(),
         level: if codec == "br" { rng.range(0, 11) as u32 } else { rng.range(0, 9) as u32 },
@@ -1439,6 +1460,19 @@ fn gen_codec(rng: &mut Rng, tier: Tier) -> W2Case {
         }
     }
     c.all_single = if is_br { wl <= 96 } else { wl <= 400 };
+    if large {
+        // whole stream, a few random cuts, and fixed strides of 1-16 KiB
+        c.all_single = false;
+        c.scheds.clear();
+        for _ in 0..3 {
+            let k = rng.below(4);
+            let mut cuts: Vec<usize> = (0..k).map(|_| rng.below(wl + 1)).collect();
+            cuts.sort_unstable();
+            c.scheds.push(cuts);
+        }
+        let stride = *rng.pick(&[1024usize, 2048, 4096, 8192, 16384]);
+        c.scheds.push((1..).map(|i| i * stride).take_while(|p| *p < wl).collect());
+    }
     c.enc = Some(enc);
     c
 }
